@@ -422,6 +422,7 @@ def run_sequence(seq, workdir, timeout):
             built = [(c[0], build(c[1], r.proj), build(c[2], r.proj)) for c in batch]
             # ---- remote -------------------------------------------------------------------
             obs = []
+            prefetched = False
             t0 = time.time()
             killer = threading.Timer(timeout, on_timeout)
             killer.daemon = True
@@ -449,6 +450,14 @@ def run_sequence(seq, workdir, timeout):
                     obs.extend([classify_exception(e)] * (len(built) - len(obs)))
             else:
                 name, args, kwargs = built[0]
+                # the reference worker executes the same request while the server does (slow requests)
+                try:
+                    dumps((name, tuple(args), kwargs))
+                    if server_alive and name != 'close':
+                        r.wconn.send(('call', name, tuple(args), kwargs))
+                        prefetched = True
+                except Exception:
+                    pass
                 try:
                     v = client_call(r.env, name, args, kwargs)
                     obs.append(observe_value(name, v))
@@ -476,7 +485,7 @@ def run_sequence(seq, workdir, timeout):
                     exp = ('dead',)
                     server_alive = False
                 else:
-                    outcome = r.inproc(name, args, kwargs)
+                    outcome = r.wconn.recv() if prefetched else r.inproc(name, args, kwargs)
                     if outcome[0] == 'ret' and name == 'location':
                         outcome = ('ret', canon_location(outcome[1]))
                     if outcome[0] == 'escape' and o[0] == 'raised' and alive_now:
@@ -612,8 +621,8 @@ def case_term(res, workdir):
         v = (name, tuple(build(a, proj)), build(k, proj))
         reqs.append(pyv_term(tag(v), it))
     observed = [obs_term(o, it) for o in res['observed']]
-    return '(%s, %s, (%s : list cobs), %s)' % (coq_list(table) if table else '([] : list coutcome)',
-                                             coq_list(reqs) if reqs else '([] : list pyv)',
+    return '(%s, %s, (%s : list cobs), %s)' % ('(%s : list coutcome)' % coq_list(table),
+                                             '(%s : list pyv)' % coq_list(reqs),
                                              coq_list(observed) if observed else '[]',
                                              'true' if res['final_alive'] else 'false')
 
@@ -644,7 +653,7 @@ def sched_case_term(res, seq, workdir):
             out.extend(['CServe'] * outstanding + ['CRecv'])
             outstanding -= 1
     observed = [obs_term(o, it) for o in res['observed']]
-    return '(%s, %s, (%s : list cobs))' % (coq_list(table) if table else '([] : list coutcome)', coq_list(out),
+    return '(%s, (%s : list cact), (%s : list cobs))' % ('(%s : list coutcome)' % coq_list(table), coq_list(out),
                                          coq_list(observed) if observed else '[]')
 
 
@@ -871,6 +880,10 @@ def gen_sequences(ctx):
             else:
                 calls.append(g_valid(rng)[0])
         seqs.append({'files': FILES, 'steps': [{'pipe': calls}], 'tag': 'pipeline'})
+    # (f) result sizes: every reply / request length around the MessagePack format boundaries
+    seqs.extend(sweep_sequences(ctx))
+    # (g) slow requests: a reply that takes seconds still answers ITS request, later replies do not shift
+    seqs[0:0] = slow_sequences(ctx)          # first, so that they run while the others do
     # (e) interleavings: up to 8 requests in flight, reads and sends in random order
     for j in range(ctx.pick(12, 150)):
         n = rng.randint(3, ctx.pick(12, 40))
@@ -887,6 +900,84 @@ def gen_sequences(ctx):
             acts.append(['s', c])
             inflight += 1
         seqs.append({'files': FILES, 'steps': [{'sched': acts}], 'tag': 'interleaved'})
+    return seqs
+
+
+SWEEP_NS = list(range(0, 21)) + list(range(30, 35)) + list(range(254, 259))
+
+
+def sweep_sequences(ctx):
+    """Replies (and argument lists) of exactly n elements / characters / bytes, n around 15/16,
+    31/32, 255/256 (thorough: 65535/65536): the array, map, str and bin length formats."""
+    cfg = {'call': ['configure', CONFIGURE_OK[0], {}]}
+    ns = SWEEP_NS
+    seqs = []
+
+    def ev(src):
+        return {'call': ['eval', [src], {}]}
+    steps = [cfg]
+    for n in ns:
+        steps += [ev('return list(range(%d))' % n), ev('return tuple(range(%d))' % n),
+                  ev('return [[i] for i in range(%d)]' % n), ev('return [list(range(%d)), "x", (list(range(%d)),)]' % (n, n)),
+                  ev('return {"k": [[] for i in range(%d)], "n": %d}' % (n, n))]
+    seqs.append({'files': FILES, 'steps': steps, 'tag': 'sweep-arrays'})
+    steps = [cfg]
+    for n in ns:
+        steps += [ev('return {str(i): i for i in range(%d)}' % n), ev('return {i: [i] for i in range(%d)}' % n),
+                  ev('return [{(i, i): None for i in range(%d)}]' % n)]
+    seqs.append({'files': FILES, 'steps': steps, 'tag': 'sweep-maps'})
+    steps = [cfg]
+    for n in sorted(set(ns + [10, 11, 63, 64, 85, 86, 127, 128, 129])):
+        steps += [ev('return "a" * %d' % n), ev('return "\\u00e9" * %d' % n), ev('return "\\u4e2d" * %d' % n),
+                  ev('return "\\U0001f600" * %d' % n), ev('return b"x" * %d' % n), ev('return ["ab" * %d, b"\\xff" * %d]' % (n, n)),
+                  ev('raise ValueError("m" * %d)' % n)]
+        # requests of exactly n bytes of source / n positional arguments / n keyword arguments
+        steps.append({'call': ['lint', ['#' + 'c' * (n - 1) if n else '', X], {}]})
+    seqs.append({'files': FILES, 'steps': steps, 'tag': 'sweep-strings'})
+    steps = [cfg]
+    for n in ns:
+        steps.append({'call': ['lint', [''.join('undefined_name_%03d\n' % i for i in range(n)), X], {}]})
+        steps.append({'call': ['eval', ['return 1'] + list(range(n)), {}]})
+        steps.append({'call': ['nosuch', [], {'k%03d' % i: i for i in range(n)}]})
+    seqs.append({'files': FILES, 'steps': steps, 'tag': 'sweep-lint-args'})
+    steps = [cfg]
+    files = dict(FILES)
+    for n in ns:
+        src = 'class Klass:\n' + ''.join('    attr_%03d = %d\n' % (i, i) for i in range(n)) + ('    pass\n' if n == 0 else '') + 'Klass.'
+        steps.append({'call': ['assist', [src, {'$tuple': [src.count('\n') + 1, 6]}, X], {}]})
+        files['sz%03d.py' % n] = ''.join('name_%03d = %d\n' % (i, i) for i in range(n))
+        steps.append({'call': ['assist', ['import sz%03d\nsz%03d.' % (n, n), {'$tuple': [2, 6]}, X], {}]})
+        loc = 'if a:\n    pass\n' + ''.join('elif a == %d:\n    x = %d\n' % (i, i) for i in range(n)) + 'x'
+        steps.append({'call': ['location', [loc, {'$tuple': [loc.count('\n') + 1, 1]}, X], {}]})
+    seqs.append({'files': files, 'steps': steps, 'tag': 'sweep-assist-location'})
+    if ctx.thorough():
+        steps = [cfg]
+        for n in (65534, 65535, 65536, 65537):
+            steps += [ev('return list(range(%d))' % n), ev('return "a" * %d' % n), ev('return "\\u00e9" * %d' % (n // 2)),
+                      ev('return b"x" * %d' % n), ev('return {i: None for i in range(%d)}' % n),
+                      {'call': ['lint', ['#' + 'c' * (n - 1), X], {}]}]
+        seqs.append({'files': FILES, 'steps': steps, 'tag': 'sweep-64K'})
+    return seqs
+
+
+def slow_sequences(ctx):
+    """One request takes seconds (as linting a multi-MiB buffer or importing a heavy module does)
+    in the middle of distinguishable fast requests; durations run concurrently on separate servers."""
+    rng = ctx.rng
+    seqs = []
+    for d in ctx.pick([6.5, 2], [6.5, 2, 12, 33]):
+        for variant in (['ret'] if not ctx.thorough() and d != 6.5 else ['ret', 'raise']):
+            steps = [{'call': ['configure', CONFIGURE_OK[0], {}]}]
+            for i in range(3):
+                steps.append({'call': ['eval', ['return "before-%d"' % i], {}]})
+            steps.append({'call': g_valid(rng)[0]})
+            body = 'return %d' % int(d * 10) if variant == 'ret' else 'raise ValueError("slow failure %s")' % d
+            steps.append({'call': ['eval', ['import time\ntime.sleep(%s)\n%s' % (d, body)], {}]})
+            for i in range(3):
+                steps.append({'call': ['eval', ['return "after-%d"' % i], {}]})
+                steps.append({'call': g_valid(rng)[0] if i != 1 else g_failing(rng)[0]})
+            steps.append({'call': ['eval', ['import time\ntime.sleep(0.3)\nreturn "last"'], {}]})
+            seqs.append({'files': FILES, 'steps': steps, 'tag': 'slow-%s-%ss' % (variant, d)})
     return seqs
 
 
@@ -960,6 +1051,8 @@ def check_environment(ctx):
         r.stop()
     if os.path.realpath(a[0]) != os.path.realpath(REPO):
         raise RuntimeError('the server imported supp from %s, expected %s' % (a[0], REPO))
+    if b[0] != 'ret' or os.path.realpath(b[1][1][0][1]) != os.path.realpath(REPO):
+        raise RuntimeError('the reference worker imported supp from %r, expected %s' % (b, REPO))
     ref = t_normalise(b[1])
     same = tag(a) == ref
     ctx.coverage['reference_environment_equal_to_server'] = same
@@ -968,6 +1061,38 @@ def check_environment(ctx):
         diff = [k for k, (x, y) in zip(('repo', 'sys.path', 'top-level sys.modules', 'cwd', 'executable'), zip(ra, ref[1])) if x != y]
         ctx.notes.append('reference worker environment differs from the server in: %s' % diff)
     return same
+
+
+def collect_lengths(t, name, acc):
+    """lengths of every list / dict / str / bytes node of a reply (coverage of the length formats)"""
+    k = t[0]
+    if k in 'LT':
+        acc.setdefault(name + ':array', set()).add(len(t[1]))
+        for x in t[1]:
+            collect_lengths(x, name, acc)
+    elif k == 'D':
+        acc.setdefault(name + ':map', set()).add(len(t[1]))
+        for a, b in t[1]:
+            collect_lengths(a, name, acc)
+            collect_lengths(b, name, acc)
+    elif k == 's':
+        acc.setdefault(name + ':str-utf8-bytes', set()).add(len(t[1].encode('utf-8', 'replace')))
+    elif k == 'y':
+        acc.setdefault(name + ':bin', set()).add(len(t[1]))
+
+
+def summarise(ints):
+    """sorted ints as ranges: [0,1,2,5] -> '0-2,5'"""
+    out = []
+    xs = sorted(ints)
+    i = 0
+    while i < len(xs):
+        j = i
+        while j + 1 < len(xs) and xs[j + 1] == xs[j] + 1:
+            j += 1
+        out.append('%d' % xs[i] if i == j else '%d-%d' % (xs[i], xs[j]))
+        i = j + 1
+    return ','.join(out)
 
 
 def seq_mode(seq):
@@ -1010,8 +1135,9 @@ def _run(ctx):
                    % (ctx.pick(12, 60), ctx.pick('2 MiB', '16 MiB')))
     check_environment(ctx)
     seqs = load_corpus() + gen_sequences(ctx)
+    seqs.sort(key=lambda q: not q['tag'].startswith('slow'))      # stable: slow sequences start first
     ctx.log('%d sequences, %d requests' % (len(seqs), sum(len(s['steps']) for s in seqs)))
-    timeout = ctx.pick(30, 180)     # per call
+    timeout = ctx.pick(60, 180)     # per call
 
     failed = []
 
@@ -1035,6 +1161,7 @@ def _run(ctx):
 
     sync_terms, sync_idx, pipe_terms, pipe_idx, sched_terms, sched_idx = [], [], [], [], [], []
     nviol = 0
+    sweep_lengths = {}
     maxsize = 0
     slowest = 0.0
     for i, (seq, res) in enumerate(zip(seqs, results)):
@@ -1050,7 +1177,7 @@ def _run(ctx):
             fk = failure_kind(c)
             big = res['sizes'][j] >= 65536 or (res['observed'][j][0] == 'returned' and res['observed'][j][1][0] == 's'
                                                and len(res['observed'][j][1][1]) >= 65536)
-            nontrivial = bool(fk) or failed_before or big or seq_mode(seq) != 'sync'
+            nontrivial = bool(fk) or failed_before or big or seq_mode(seq) != 'sync' or seq['tag'].startswith(('sweep', 'slow'))
             ctx.count((seq['tag'], j, json.dumps(res['calls'][:j + 1], sort_keys=True, default=repr)[-4000:]), nontrivial=nontrivial)
             ctx.histogram('request_kind', fk or c[0])
             ctx.histogram('observation', res['observed'][j][0])
@@ -1061,6 +1188,10 @@ def _run(ctx):
             if ob[0] == 'returned' and ob[1][0] == 's':
                 rl = len(ob[1][1])
                 ctx.histogram('reply_string_bytes', '0-255' if rl < 256 else '256-64K' if rl < 65536 else '64K-1M' if rl < 2 ** 20 else '>=1MiB')
+            if seq['tag'].startswith('sweep') and ob[0] == 'returned':
+                collect_lengths(ob[1], c[0], sweep_lengths)
+            if res['times'][j] >= 1.5:
+                ctx.histogram('slow_request_seconds', int(res['times'][j]))
             sz = res['sizes'][j]
             ctx.histogram('request_bytes', '0-255' if sz < 256 else '256-64K' if sz < 65536 else '64K-1M' if sz < 2 ** 20 else '>=1MiB')
             maxsize = max(maxsize, sz)
@@ -1101,6 +1232,7 @@ def _run(ctx):
         else:
             sync_terms.append(term)
             sync_idx.append(i)
+    cov['sweep_reply_lengths'] = {k: summarise(v) for k, v in sorted(sweep_lengths.items())}
     cov['max_request_bytes'] = maxsize
     cov['slowest_call_s'] = round(slowest, 2)
     cov['sequences'] = len(seqs)
